@@ -137,6 +137,10 @@ def rule_SER(FA):
             stys = [t['f']['fn']['gargs'][-1] for b in ser['blocks'] for t in [b['t']]
                     if t['k'] == 'call' and 'fn' in t['f'] and t['f']['fn']['name'] == 'serialize_field' and t['f']['fn'].get('gargs')]
             wrappers = [x for x in stys if '__SerializeWith' in x]
+            extra = sorted(names - set(fields))
+            if ser['derived'] and extra:
+                out.append(Inst('R-SER', 'R-SER|%s|writer adds nothing' % base, 'violation', ser['span'],
+                                'the derived Serialize of %s writes `%s`, which is not a field (serde(tag = ..)): the derived Deserialize does not read it back, every later field is misparsed' % (short, ', '.join(extra)), props))
             if wrappers:
                 out.append(Inst('R-SER', 'R-SER|%s|serialize uses field types' % base, 'violation', ser['span'],
                                 'a field of %s is serialized through a wrapper type (%s): hand-written field serializer outside the trusted derive' % (short, wrappers[0].split('::')[-1]), props))
@@ -208,8 +212,16 @@ def rule_SER(FA):
                 out.append(Inst('R-SER', key, 'violation', vs[0]['span'], 'deserializer reads %d elements but %s has %d fields (a field is skipped or defaulted)' % (n, short, len(fields)), props))
         elif 'Deserialize' in imp:
             de = _method(FA, base, 'Deserialize', 'deserialize')
-            out.append(Inst('R-SER', 'R-SER|%s|visit_seq reads every field' % base, 'note', de['span'] if de else '',
-                            'hand-written Deserialize: field coverage not decided', props, nontrivial=False))
+            ser2 = _method(FA, base, 'Serialize', 'serialize')
+            fieldwise = ser2 is not None and any(t['f']['fn']['name'] == 'serialize_field' for b in ser2['blocks'] for t in [b['t']] if t['k'] == 'call' and 'fn' in t['f'])
+            if de is not None and de['derived'] and ser2 is not None and ser2['derived'] and fieldwise and fields:
+                # derived on both sides, the writer goes field by field, the reader has no visitor at all: the reader was
+                # redirected to another type (`#[serde(from = "..")]` without the matching `into`)
+                out.append(Inst('R-SER', 'R-SER|%s|reader mirrors writer' % base, 'violation', de['span'],
+                                'the derived Serialize of %s writes its %d fields but the derived Deserialize reads another type and converts (serde(from / try_from) without the matching `into`): the bytes written are not the bytes read, so a %s inside a sequence or a tuple desynchronises the stream' % (short, len(fields), short), props))
+            else:
+                out.append(Inst('R-SER', 'R-SER|%s|visit_seq reads every field' % base, 'note', de['span'] if de else '',
+                                'hand-written Deserialize: field coverage not decided', props, nontrivial=False))
         # eq compares every field
         eq = _method(FA, base, 'PartialEq', 'eq')
         if eq is not None:
@@ -287,6 +299,23 @@ def rule_AUTO(FA):
         lay = FA.layouts.get(base)
         if lay is not None and adt['generics'] == [] and not lay['freeze']:
             out.append(Inst('R-AUTO', 'R-AUTO|%s|freeze' % base, 'violation', adt['span'], 'type is not Freeze (interior mutability)', props))
+    # the iterator types the query structures hand out travel between threads with them: plain references are fine there
+    # (a borrowing iterator is Send/Sync when the container is), raw pointers / cells / Rc are not
+    inner = set(closure_adts(FA))
+    for base, adt in sorted(FA.adts.items()):
+        if base in inner or not adt.get('exported') or '::_::' in base or 'perf_and_test' in base:
+            continue
+        for fld in adt['fields']:
+            bad = [t for t in fld['tags'] if t in ('rawptr', 'unsafecell', 'fnptr', 'dyn')
+                   or t in ('adt:std::rc::Rc', 'adt:std::rc::Weak') or t.startswith('adt:std::cell::') or t.startswith('adt:std::sync::atomic')
+                   or t.startswith('adt:std::sync::Mutex') or t.startswith('adt:std::sync::RwLock') or t.startswith('adt:std::sync::Once')]
+            key = 'R-AUTO|%s.%s' % (base, fld['name'])
+            if bad:
+                out.append(Inst('R-AUTO', key, 'violation', adt['span'],
+                                'field `%s: %s` of the public type %s introduces %s: values of the type (iterators over the query structures) are no longer Send / Sync with their container' % (
+                                    fld['name'], fld['ty'], base.split('::')[-1], ', '.join(sorted(set(bad)))), props))
+            else:
+                out.append(Inst('R-AUTO', key, 'ok', adt['span'], fld['ty'], props, nontrivial=False))
     if FA.statics:
         for s in FA.statics:
             st = 'violation' if s['mut'] else 'note'
